@@ -228,6 +228,9 @@ void reallocate_locals () {
   );
   type_of_locals_ptr = type_of_locals + offset;
 
+  /* the three tables grow together (the size of the other two was left as it was: the
+   * second nested function literal with many locals wrote past them) */
+  locals_size = type_of_locals_size;
   offset = locals_ptr - locals;
   locals = RESIZE (locals,
     locals_size,
